@@ -1,6 +1,8 @@
 package management
 
 import (
+	"errors"
+
 	"github.com/lmorg/murex/lang"
 	"github.com/lmorg/murex/lang/types"
 	"github.com/lmorg/murex/shell"
@@ -17,7 +19,12 @@ func cmdHistory(p *lang.Process) (err error) {
 	//	return errors.New("This is only designed to be run when the shell is in interactive mode")
 	//}
 
-	list := shell.Prompt.History.Dump().([]history.Item)
+	// the murex history file is only loaded by the interactive shell; outside
+	// of it readline's default (in-memory) history is in place
+	list, ok := shell.Prompt.History.Dump().([]history.Item)
+	if !ok {
+		return errors.New("no murex history is available (`history` is only supported when the shell is in interactive mode)")
+	}
 
 	// If outputting to the terminal then lets just do pure JSON for readability
 	if p.Stdout.IsTTY() {
